@@ -6,7 +6,8 @@ from vlib import rs, runner
 from props import pmem
 
 ASSUMPTIONS = [
-    "Linux implements the POSIX contract as modelled by harness/ghost_libc.c (mprotect: page-aligned addr, len rounded up to whole pages, len 0 no-op; mlock/munlock page-rounded)",
+    "Linux implements the POSIX contract as modelled by harness/ghost_libc.c (mprotect: page-aligned addr, len rounded up to whole pages, len 0 no-op; mlock/munlock page-rounded; "
+    "mlock over a PROT_NONE page returns ENOMEM yet leaves the range marked locked - observed natively through VmLck)",
     "page size 4 stands for the real page size: the code is parametric in sysconf(_SC_PAGE_SIZE) (not proved parametric)",
     "a page with PROT_READ/PROT_NONE faults on write/any access (the kernel's job, not dryoc's)",
 ]
@@ -15,6 +16,8 @@ OUTSIDE = ["page sizes other than the ghost's", "Windows code paths", "operation
 
 
 def select(container, ck, ln, seq, tier, rnd):
+    if tier == "quick" and list(seq[-2:]) == ["na", "mlock"] and ln == 5:
+        return True     # locking a no-access region (the Linux mlock-on-PROT_NONE defect, fix b721c99)
     if tier == "quick":
         # page+1 (the boundary the len-1 defect lived on): all depth<=2 sequences for the two main constructors,
         # depth<=1 for the rest; 1-byte regions: depth<=1 for the main constructors only
